@@ -126,7 +126,7 @@ structure PcOk (s : AS) (pc : APC) : Prop where
   ownOk : ∀ (x : Bytes) (nb : ABucket), ownsB pc = some (x, nb) →
     nb.id < s.nextId ∧ nb.len ≤ nb.cap ∧ Tiled nb.len nb.claims ∧ (∀ b ∈ s.buckets, b.id ≠ nb.id) ∧
     (∀ c ∈ nb.claims, c.data ≠ none) ∧ ({ off := 0, n := x.length, data := some x } : Claim) ∈ nb.claims
-  mxSeen : ∀ (mx : Nat), sawMax pc = some mx → mx = s.max
+  mxSeen : ∀ (mx : Nat), sawMax pc = some mx → mx ≤ s.hi
   casOk : ∀ (x : Bytes) (b seen : Nat), casB pc = some (x, b, seen) → ∀ bk ∈ s.buckets, bk.id = b → seen + x.length ≤ bk.cap
   casIn : ∀ (x : Bytes) (b seen : Nat), casB pc = some (x, b, seen) → ∃ bk ∈ s.buckets, bk.id = b
   reqOk : ∀ (x : Bytes) (req : Nat), reqOf pc = some (x, req) → x.length ≤ req
@@ -144,7 +144,8 @@ structure AInv (cap0 : Nat) (s : AS) : Prop where
     ∃ (t : Nat) (th : AThread) (x : Bytes), s.ts[t]? = some th ∧ copies th.pc = some (x, b.id, c.off)
   ownDis : ∀ (t u : Nat) (p q : AThread) (x y : Bytes) (a b : ABucket), t ≠ u → s.ts[t]? = some p → s.ts[u]? = some q →
     ownsB p.pc = some (x, a) → ownsB q.pc = some (y, b) → a.id ≠ b.id
-  capOk : s.usage ≤ Nat.max cap0 s.max
+  capOk : s.usage ≤ Nat.max cap0 s.hi
+  maxLe : s.max ≤ s.hi
   logOk : ∀ e ∈ s.log, logged s e
 
 theorem pcOk_idle (s : AS) : PcOk s .idle := by
@@ -167,6 +168,7 @@ theorem init_inv (cap max : Nat) (programs : List (List Bytes)) : AInv cap (init
   · intro b hb c hc; simp [init] at hb; subst hb; simp at hc
   · intro t u p q x y a b _ hp _ ha _; rw [init_pc hp] at ha; simp [ownsB] at ha
   · simp [init]; exact Nat.le_max_left _ _
+  · simp [init]
   · intro e he; simp [init] at he
 
 theorem logged_mono {s s' : AS} (e : Nat × Bytes × ARes)
@@ -181,7 +183,7 @@ theorem logged_mono {s s' : AS} (e : Nat × Bytes × ARes)
 
 /-- `PcOk` only depends on the blocks, the id counter and the limit. -/
 theorem pcOk_congr {s s' : AS} {pc : APC} (h : PcOk s pc) (hb : s'.buckets = s.buckets) (hn : s'.nextId = s.nextId)
-    (hm : s'.max = s.max) : PcOk s' pc := by
+    (hm : s'.hi = s.hi) : PcOk s' pc := by
   obtain ⟨a, b, c, d, d', e, f⟩ := h
   constructor
   · intro x bb off hc; rw [hb]; exact a x bb off hc
@@ -199,7 +201,7 @@ theorem inv_neutral {cap0 : Nat} {s : AS} (h : AInv cap0 s) (t : Nat) (th new : 
     (hpc : PcOk s new.pc)
     (lg : List (Nat × Bytes × ARes)) (hlg : ∀ e ∈ lg, e ∈ s.log ∨ (∀ (b o : Nat), e.2.2 ≠ ARes.ok b o)) (bc : Nat) :
     AInv cap0 { s with ts := s.ts.set t new, log := lg, bucketCap := bc } := by
-  obtain ⟨h1, h2, h3, h4, h5, h6, h7, h9, h11, h12⟩ := h
+  obtain ⟨h1, h2, h3, h4, h5, h6, h7, h9, h11, h11b, h12⟩ := h
   constructor
   · exact h1
   · exact h2
@@ -230,6 +232,7 @@ theorem inv_neutral {cap0 : Nat} {s : AS} (h : AInv cap0 s) (t : Nat) (th new : 
       · rw [hn.2] at hq; simp at hq
       · exact h9 u v p q x y a b huv hu hv hp hq
   · exact h11
+  · exact h11b
   · intro e he
     rcases hlg e he with hold | hnew
     · exact h12 e hold
@@ -277,7 +280,7 @@ theorem inv_cas {cap0 : Nat} {s : AS} (h : AInv cap0 s) (t : Nat) (th : AThread)
     (hlen : bk.len = seen) :
     AInv cap0 { s with ts := s.ts.set t { th with pc := .copy x b seen },
                        buckets := updB s.buckets b fun k => { k with len := seen + x.length, claims := { off := seen, n := x.length, data := none } :: k.claims } } := by
-  obtain ⟨h1, h2, h3, h4, h5, h6, h7, h9, h11, h12⟩ := h
+  obtain ⟨h1, h2, h3, h4, h5, h6, h7, h9, h11, h11b, h12⟩ := h
   obtain ⟨hbk, hbid⟩ := findB_some hf
   have hme := h5 t th ht
   have hcap : seen + x.length ≤ bk.cap := hme.casOk x b seen (by rw [hpc]; rfl) bk hbk hbid
@@ -402,6 +405,7 @@ theorem inv_cas {cap0 : Nat} {s : AS} (h : AInv cap0 s) (t : Nat) (th : AThread)
       · simp [ownsB] at hq
       · exact h9 u v p q x' y' a' b' huv hu hv hp hq
   · exact h11
+  · exact h11b
   · intro e he
     exact logged_mono e (fun bid c _ hex => hclaims bid c hex) (h12 e he)
 
@@ -419,7 +423,7 @@ theorem inv_copy {cap0 : Nat} {s : AS} (h : AInv cap0 s) (t : Nat) (th new : ATh
     (ht : s.ts[t]? = some th) (hpc : th.pc = .copy x b off) (hnew : new.pc = .idle) :
     AInv cap0 { s with ts := s.ts.set t new, log := (t, x, .ok b off) :: s.log,
                        buckets := updB s.buckets b fun k => { k with claims := fillClaim k.claims off x } } := by
-  obtain ⟨h1, h2, h3, h4, h5, h6, h7, h9, h11, h12⟩ := h
+  obtain ⟨h1, h2, h3, h4, h5, h6, h7, h9, h11, h11b, h12⟩ := h
   have hme := h5 t th ht
   obtain ⟨bk, hbk, hbid, hmine⟩ := hme.copyClaim x b off (by rw [hpc]; rfl)
   have hlt : t < s.ts.length := (List.getElem?_eq_some_iff.mp ht).1
@@ -536,6 +540,7 @@ theorem inv_copy {cap0 : Nat} {s : AS} (h : AInv cap0 s) (t : Nat) (th new : ATh
       · rw [hnew] at hq; simp [ownsB] at hq
       · exact h9 u v p q x' y' a' b' huv hu hv hp hq
   · exact h11
+  · exact h11b
   · intro e he
     simp only [List.mem_cons] at he
     rcases he with rfl | he
@@ -568,7 +573,7 @@ theorem inv_copy {cap0 : Nat} {s : AS} (h : AInv cap0 s) (t : Nat) (th new : ATh
 
 
 theorem pcOk_weaken {s s' : AS} {pc : APC} (h : PcOk s pc) (hb : s'.buckets = s.buckets) (hn : s.nextId ≤ s'.nextId)
-    (hm : s'.max = s.max) : PcOk s' pc := by
+    (hm : s'.hi = s.hi) : PcOk s' pc := by
   obtain ⟨a, b, c, d, d', e, f⟩ := h
   constructor
   · intro x bb off hc; rw [hb]; exact a x bb off hc
@@ -587,9 +592,9 @@ theorem inv_alloc {cap0 : Nat} {s : AS} (h : AInv cap0 s) (t : Nat) (th : AThrea
     (hown : ownsB newpc = some (x, freshB s.nextId req x)) (hcp : copies newpc = none) (hsm : sawMax newpc = none)
     (hcb : casB newpc = none) (hrq : reqOf newpc = none) (hst : strOf newpc = some x) :
     AInv cap0 { s with usage := s.usage + req, nextId := s.nextId + 1, ts := s.ts.set t { th with pc := newpc } } := by
-  obtain ⟨h1, h2, h3, h4, h5, h6, h7, h9, h11, h12⟩ := h
+  obtain ⟨h1, h2, h3, h4, h5, h6, h7, h9, h11, h11b, h12⟩ := h
   have hme := h5 t th ht
-  have hmx : mx = s.max := hme.mxSeen mx (by rw [hpc]; rfl)
+  have hmx : mx ≤ s.hi := hme.mxSeen mx (by rw [hpc]; rfl)
   have hreq : x.length ≤ req := hme.reqOk x req (by rw [hpc]; rfl)
   have hpos : 0 < x.length := hme.strPos x (by rw [hpc]; rfl)
   have hnotown : ownsB th.pc = none := by rw [hpc]; rfl
@@ -648,9 +653,9 @@ theorem inv_alloc {cap0 : Nat} {s : AS} (h : AInv cap0 s) (t : Nat) (th : AThrea
       simp only [freshB]; omega
     · exact h9 u v p q x' y' a' b' huv hu hv hp hq
   · simp only
-    subst hmx
-    have : s.usage + req ≤ s.max := by omega
+    have : s.usage + req ≤ s.hi := by omega
     exact Nat.le_trans this (Nat.le_max_right _ _)
+  · exact h11b
   · exact h12
 
 /-- A pc change that keeps the owned block (capacity store, head load, failed head exchange). -/
@@ -659,7 +664,7 @@ theorem inv_keep_owned {cap0 : Nat} {s : AS} (h : AInv cap0 s) (t : Nat) (th : A
     (hown : ownsB newpc = some (x, nb)) (hcp : copies newpc = none) (hsm : sawMax newpc = none)
     (hcb : casB newpc = none) (hrq : reqOf newpc = none) (hst : strOf newpc = some x) (bc : Nat) :
     AInv cap0 { s with ts := s.ts.set t { th with pc := newpc }, bucketCap := bc } := by
-  obtain ⟨h1, h2, h3, h4, h5, h6, h7, h9, h11, h12⟩ := h
+  obtain ⟨h1, h2, h3, h4, h5, h6, h7, h9, h11, h11b, h12⟩ := h
   have hme := h5 t th ht
   have hnotcopy : copies th.pc = none := by
     cases hp : th.pc <;> simp_all [copies, ownsB]
@@ -712,13 +717,14 @@ theorem inv_keep_owned {cap0 : Nat} {s : AS} (h : AInv cap0 s) (t : Nat) (th : A
       exact h9 u v p th x' x a' nb huv hu ht hp hold
     · exact h9 u v p q x' y' a' b' huv hu hv hp hq
   · exact h11
+  · exact h11b
   · exact h12
 
 /-- The head exchange succeeded: the owned block is published at the head of the list. -/
 theorem inv_push {cap0 : Nat} {s : AS} (h : AInv cap0 s) (t : Nat) (th new : AThread) (x : Bytes) (nb : ABucket)
     (ht : s.ts[t]? = some th) (hold : ownsB th.pc = some (x, nb)) (hnew : new.pc = .idle) :
     AInv cap0 { s with ts := s.ts.set t new, log := (t, x, .ok nb.id 0) :: s.log, buckets := nb :: s.buckets } := by
-  obtain ⟨h1, h2, h3, h4, h5, h6, h7, h9, h11, h12⟩ := h
+  obtain ⟨h1, h2, h3, h4, h5, h6, h7, h9, h11, h11b, h12⟩ := h
   have hme := h5 t th ht
   obtain ⟨o1, o2, o3, o4, o5, o6⟩ := hme.ownOk x nb hold
   have hnotcopy : copies th.pc = none := by
@@ -789,6 +795,7 @@ theorem inv_push {cap0 : Nat} {s : AS} (h : AInv cap0 s) (t : Nat) (th new : ATh
       · rw [hnew] at hq; simp [ownsB] at hq
       · exact h9 u v p q x' y' a' b' huv hu hv hp hq
   · exact h11
+  · exact h11b
   · intro e he
     simp only [List.mem_cons] at he
     rcases he with rfl | he
@@ -810,7 +817,7 @@ theorem pcOk_simple (s : AS) (pc : APC) (x : Bytes) (hx : 0 < x.length) (h1 : co
 
 theorem pcOk_req (s : AS) (pc : APC) (x : Bytes) (req : Nat) (hx : 0 < x.length) (hr : x.length ≤ req)
     (h1 : copies pc = none) (h2 : ownsB pc = none)
-    (h3 : ∀ mx, sawMax pc = some mx → mx = s.max) (h4 : casB pc = none) (h5 : reqOf pc = some (x, req)) (h6 : strOf pc = some x) : PcOk s pc := by
+    (h3 : ∀ mx, sawMax pc = some mx → mx ≤ s.hi) (h4 : casB pc = none) (h5 : reqOf pc = some (x, req)) (h6 : strOf pc = some x) : PcOk s pc := by
   constructor
   · intro _ _ _ h; rw [h1] at h; simp at h
   · intro _ _ h; rw [h2] at h; simp at h
@@ -936,7 +943,7 @@ theorem step_inv {cap0 : Nat} {s s' : AS} {t : Nat} {sp : Bool} (h : AInv cap0 s
     have hr : x.length ≤ req := hme.reqOk x req (by rw [hpc]; rfl)
     injection hs with hs; subst hs
     exact inv_neutral h t th { th with pc := .allocUpd x req s.max k } ht (by rw [hpc]; exact ⟨rfl, rfl⟩) ⟨rfl, rfl⟩
-      (pcOk_req _ _ x _ hx hr rfl rfl (by intro _ hh; simp only [sawMax, Option.some.injEq] at hh; exact hh.symm) rfl rfl rfl) s.log (fun e he => Or.inl he) s.bucketCap
+      (pcOk_req _ _ x _ hx hr rfl rfl (by intro _ hh; simp only [sawMax, Option.some.injEq] at hh; rw [← hh]; exact h.maxLe) rfl rfl rfl) s.log (fun e he => Or.inl he) s.bucketCap
   next x req mx k hpc =>
     have hx : 0 < x.length := hme.strPos x (by rw [hpc]; rfl)
     have hr : x.length ≤ req := hme.reqOk x req (by rw [hpc]; rfl)
